@@ -463,11 +463,14 @@ type Problem struct {
 }
 
 type Machine struct {
-	Root     string
-	FS       *RecFS
-	SN       snapshots.Snapshotter
-	Async    bool
-	Closed   bool
+	Root   string
+	FS     *RecFS
+	SN     snapshots.Snapshotter
+	Async  bool
+	Closed bool
+	// Relaxed: the root is a crash image: left-over temp/orphan directories and the failures they cause
+	// (rename onto an orphan directory) are expected until the first Cleanup.
+	Relaxed  bool
 	Problems []Problem
 	// harness-side bookkeeping, learnt from observations only (never from the model)
 	idOf      map[int]int // live snapshot name -> id (from the directory that appeared when it was created)
@@ -838,7 +841,7 @@ func (m *Machine) oracle(o Op, res Res, evs []Event, before map[int]WalkEnt, dir
 			if _, now := after[o.Key]; now {
 				if len(newDirs) == 1 {
 					m.idOf[o.Key] = newDirs[0]
-				} else {
+				} else if !m.Relaxed {
 					m.problem("", "%s created %s but %d new directories appeared", o.Op, Name(o.Key), len(newDirs))
 				}
 			} else if o.Op == "prepare" && o.L.T >= 0 {
@@ -868,7 +871,7 @@ func (m *Machine) oracle(o Op, res Res, evs []Event, before map[int]WalkEnt, dir
 	if m.Closed {
 		return
 	}
-	if res.Class == "other" {
+	if res.Class == "other" && !m.Relaxed {
 		m.problem("", "%s failed with an unclassified error while the snapshotter is open", o.Op)
 	}
 
@@ -952,6 +955,7 @@ func (m *Machine) oracle(o Op, res Res, evs []Event, before map[int]WalkEnt, dir
 				start = o.Key
 			}
 			chain := []int{}
+			chainKnown := true
 			for n, fuel := start, 1000; n >= 0 && fuel > 0; fuel-- {
 				e, ok := after[n]
 				if !ok {
@@ -961,6 +965,12 @@ func (m *Machine) oracle(o Op, res Res, evs []Event, before map[int]WalkEnt, dir
 				id, have := m.idOf[n]
 				if have {
 					chain = append(chain, id)
+				} else {
+					chainKnown = false
+					if m.Relaxed {
+						n = e.Parent
+						continue // id of a snapshot of the crash image the harness could not learn: cannot evaluate
+					}
 				}
 				if e.L.R && (!have || !passed[id]) {
 					m.problem("", "%s returned mounts without a passed check of remote layer %s", o.Op, Name(n))
@@ -983,6 +993,9 @@ func (m *Machine) oracle(o Op, res Res, evs []Event, before map[int]WalkEnt, dir
 				if len(wantLower) == 0 {
 					got = nil
 				}
+			}
+			if !chainKnown && m.Relaxed {
+				got, wantLower = nil, nil
 			}
 			if fmt.Sprint(got) != fmt.Sprint(wantLower) && !(len(got) == 0 && len(wantLower) == 0) {
 				m.problem("", "%s: lower directories %v, want parent chain nearest first %v", o.Op, got, wantLower)
@@ -1035,7 +1048,7 @@ func (m *Machine) oracle(o Op, res Res, evs []Event, before map[int]WalkEnt, dir
 			m.problem("", "after %s: directories %v (+%d temp), live snapshot ids %v", o.Op, v.Dirs, v.Temps, want)
 		}
 	}
-	if v.Temps != 0 {
+	if v.Temps != 0 && !m.Relaxed {
 		m.problem("", "temp directory left behind by %s", o.Op)
 	}
 	// every backend mount sits on an existing directory unless its Unmount was scripted to fail
@@ -1078,5 +1091,20 @@ func (m *Machine) Destroy() {
 	os.RemoveAll(m.Root)
 }
 
-// IDOf exposes the harness-side name -> id bookkeeping (cmd/snapcrash).
-func (m *Machine) IDOf() map[int]int { return m.idOf }
+// IDOf exposes a copy of the harness-side name -> id bookkeeping (cmd/snapcrash).
+func (m *Machine) IDOf() map[int]int {
+	c := map[int]int{}
+	for k, v := range m.idOf {
+		c[k] = v
+	}
+	return c
+}
+
+// SeedIDs installs name -> id knowledge learnt by the pre-crash machine (minus the names the crashing op touched).
+func (m *Machine) SeedIDs(ids map[int]int, except map[int]bool) {
+	for k, v := range ids {
+		if !except[k] {
+			m.idOf[k] = v
+		}
+	}
+}
